@@ -74,6 +74,10 @@ def main(tier: str) -> int:
             got = (multi["results"] or {}).get("top")
             if exp is not None and (got is None or got["gets"] != exp):
                 problem = f"top.gets: {None if got is None else got['gets']} != what the single-file program gives {exp}"
+            for fn, want in (m.get("expected") or {}).items():
+                g = (multi["results"] or {}).get(fn)
+                if g is None or any(g[k] != want[k] for k in ("gets", "sets", "dels")):
+                    problem = f"{fn}: {g} != what the single-file program gives {want}"
         elif merged is None or merged["results"] is None:
             continue
         else:
